@@ -154,6 +154,7 @@ func runC19(c *Ctx, tier string) {
 		}
 	}
 
+	runC19Pipe(c)
 	// E2
 	if fn := p.Func("(*api/queryio.Writer).WriteControl"); fn == nil {
 		c.Undecided("C19-E2", "(*api/queryio.Writer).WriteControl", "anchor does not resolve")
@@ -312,4 +313,105 @@ func init() {
 	register(&PropertyDef{ID: "C19", Run: runC19,
 		Explanation: "Decides structural conditions of service/direct agreement: handlers never drop an error and report it on every failing path (E1), a late error is written in-band on every path (E2: violated on today's tree, genuine known finding), server/client control-message tables agree (K1), no stub behind the shared lake/api.Interface (K2: RemoveBranch, known finding). Does NOT decide equality of state and output between the two access paths.",
 		Assumptions: []string{"helpers that take the ResponseWriter (r.Unmarshal(w,..), r.StringFromPath(w,..)) report their own errors and return ok=false"}})
+}
+
+// runC19Pipe: E3.  The remote load streams its body through an io.Pipe from a goroutine; the only
+// way the producer can tell the HTTP request that the source failed is pw.CloseWithError(err).
+// io.Pipe keeps the FIRST close, so nothing may close the pipe writer before that.
+func runC19Pipe(c *Ctx) {
+	p := c.P
+	c.Rule("C19-E3", "a source error during a remote load reaches the request: the pipe writer is closed only by CloseWithError carrying the copy's / writer's error, and is never handed (as a closer) to a writer that would close it first")
+	fn := p.Func("(*lake/api.remote).Load")
+	if fn == nil {
+		c.Undecided("C19-E3", "(*lake/api.remote).Load", "anchor does not resolve")
+		return
+	}
+	fns := append([]*ssa.Function{fn}, fn.AnonFuncs...)
+	var pw ssa.Value
+	for _, ci := range callsTo(fn, "io.Pipe") {
+		if call, ok := ci.(*ssa.Call); ok {
+			for _, r := range *call.Referrers() {
+				if ex, ok := r.(*ssa.Extract); ok && ex.Index == 1 {
+					pw = ex
+				}
+			}
+		}
+	}
+	if pw == nil {
+		c.Undecided("C19-E3", "(*lake/api.remote).Load", "io.Pipe not found")
+		return
+	}
+	isPW := func(v ssa.Value) bool {
+		return dependsOn(v, func(w ssa.Value) bool {
+			if w == pw {
+				return true
+			}
+			// captured by the goroutine closure
+			if fv, ok := w.(*ssa.FreeVar); ok && namedOf(fv.Type()) == "io.PipeWriter" {
+				return true
+			}
+			if u, ok := w.(*ssa.UnOp); ok {
+				if fv, ok := u.X.(*ssa.FreeVar); ok && fv.Name() == "pw" {
+					return true
+				}
+			}
+			return false
+		})
+	}
+	bad, closeWithErr := false, false
+	for _, g := range fns {
+		for _, b := range g.Blocks {
+			for _, in := range b.Instrs {
+				switch x := in.(type) {
+				case *ssa.MakeInterface:
+					if namedOf(x.X.Type()) != "io.PipeWriter" || !isPW(x.X) {
+						continue
+					}
+					it, _ := x.Type().Underlying().(*types.Interface)
+					hasClose := false
+					if it != nil {
+						for i := 0; i < it.NumMethods(); i++ {
+							if it.Method(i).Name() == "Close" {
+								hasClose = true
+							}
+						}
+					}
+					if !hasClose {
+						continue
+					}
+					for _, r := range *x.Referrers() {
+						if call, ok := r.(ssa.CallInstruction); ok && calleeName(call.Common()) != "zio.NopCloser" {
+							bad = true
+							c.Fail("C19-E3", "(*lake/api.remote).Load pipe ownership", x.Pos(), "the pipe writer is handed as a closer to "+calleeOrDyn(call)+": that writer's Close ends the request body with a clean EOF first, the later CloseWithError(err) is ignored, and a load whose source failed part-way is committed and reported as success (direct access returns the error and commits nothing)")
+						}
+					}
+				case ssa.CallInstruction:
+					cc := x.Common()
+					switch calleeName(cc) {
+					case "(*io.PipeWriter).CloseWithError":
+						if isPW(cc.Args[0]) {
+							// its argument must carry the errors of the copy and of the writer's Close
+							copyErr := dependsOn(cc.Args[1], func(v ssa.Value) bool {
+								call, ok := v.(*ssa.Call)
+								return ok && (calleeName(call.Common()) == "zio.CopyWithContext" || calleeName(call.Common()) == "zio.Copy")
+							})
+							if copyErr {
+								closeWithErr = true
+							}
+						}
+					case "(*io.PipeWriter).Close":
+						if isPW(cc.Args[0]) {
+							bad = true
+							c.Fail("C19-E3", "(*lake/api.remote).Load pipe ownership", x.Pos(), "the pipe writer is closed without an error: a failed source looks like a complete body")
+						}
+					}
+				}
+			}
+		}
+	}
+	if !closeWithErr {
+		c.Fail("C19-E3", "(*lake/api.remote).Load error hand-over", fn.Pos(), "the goroutine does not finish with pw.CloseWithError(<error of the copy>)")
+	} else if !bad {
+		c.OK("C19-E3", "(*lake/api.remote).Load", fn.Pos(), "pipe closed only by CloseWithError(copy/close error); the ZNG writer gets a NopCloser")
+	}
 }
